@@ -174,11 +174,20 @@ def gen_row_text(r, room, rich):
       units.append(("t", gen_chars(r, n)))
       used += 1 + n
       last = "t"
-    else:
+    elif x < 0.975:
       if last == "t" and 1 <= used < room:
         units.append(("c", w_ctrl("BS")))
         units.append(("t", gen_chars(r, 1)))
         last = "t"
+    else:
+      # a tab offset in the middle of a row: the cursor moves over 1-3 cells, which stay transparent (a gap), then text follows
+      n = r.randint(1, 3)
+      if left < n + 1 or used + n + 1 >= room:
+        break
+      units.append(("c", w_ctrl(f"TO{n}")))
+      units.append(("t", [r.choice(LETTERS)]))
+      used += n + 1
+      last = "t"
   return units
 
 
@@ -508,6 +517,7 @@ class ObservedDecoder(R.Decoder):
     self.last_switch = None
     self.first_overwrite = None
     self.spacepairs = 0       # paint-on: character pairs that end with a space (and do not start with one)
+    self.tabgaps = 0          # tab offsets received while the row already holds something left of the cursor (a gap inside the row)
     self.fresh = True         # paint-on: no character yet since the last PAC / mid-row code
     self.erased = False       # roll-up: EDM received and no RUx / PAC / character since
     self.orphan = False       # roll-up: characters were written after an EDM without RUx / PAC
@@ -563,6 +573,10 @@ class ObservedDecoder(R.Decoder):
     return super()._pac(det)
 
   def _control(self, name):
+    if name in ("TO1", "TO2", "TO3"):
+      mem = self._memory()
+      if mem is not None and self.row is not None and any(c is not None for c in mem[self.row][:self.col]):
+        self.tabgaps += 1
     if self.mode == "roll":
       if name == "EDM":
         self.erased, self.orphan = True, False
@@ -591,7 +605,7 @@ class RefRun:
     lines = R.parse_scc_words(text)
     self.drop = None
     self.recv, self.tag, self.line, self.version, self.mode, self.dups = [], [], [], [], [], []
-    self.overwrites, self.switches, self.spacepairs, self.switch_at = [], [], [], []
+    self.overwrites, self.switches, self.spacepairs, self.switch_at, self.tabgaps = [], [], [], [], []
     self.snap = {0: {}}
     self.labels = []
     dec = ObservedDecoder(quirks)
@@ -621,6 +635,7 @@ class RefRun:
           self.switch_at.append((len(self.switches), dec.last_switch))
         self.switches.append(dec.switches)
         self.spacepairs.append(dec.spacepairs)
+        self.tabgaps.append(dec.tabgaps)
         if dec.version != before:
           self.snap[dec.version] = normal_ref(dec.displayed_rows())
         self.version.append(dec.version)
@@ -1178,6 +1193,8 @@ def evaluate(text, cfg_name):
     key = f"overwrite:{bref.first_overwrite}:{kind}"
   elif bref.spacepairs[-1]:
     key = f"paint-on:after-space-pair:{kind}"
+  elif bref.tabgaps[-1]:
+    key = f"gap:tab-offset-after-text:{best.mode}:{kind}"
   else:
     key = f"screen:{best.mode}:{what}@{trigger(bref, idx)}"
   fails.append((key, C_TEXT,
@@ -1263,6 +1280,22 @@ def directed_streams():
   out.append(_scc((300, [C_("RCL"), P_(15)] + _t("AB") + [w_midrow(1, False), w_midrow(7, False)] + _t("CD") + [C_("EOC")]), (400, [C_("EDM")])))
   out.append(_scc((300, [C_("RCL"), C_("RCL"), P_(15), P_(15)] + _t("AB") + [w_midrow(1, False)] * 2 + [w_midrow(7, False)] * 2 + _t("CD") + [C_("EOC"), C_("EOC")]),
                   (400, [C_("EDM"), C_("EDM")])))
+  # a tab offset after text on the same row leaves a gap of transparent cells (pop-on, paint-on, roll-up)
+  out.append(_scc((300, [C_("RCL"), C_("ENM"), P_(14)] + _t("AB") + [C_("TO2")] + _t("CD") + [C_("EOC")]), (400, [C_("RCL"), C_("ENM"), C_("EOC")])))
+  out.append(_scc((300, [C_("RDC"), P_(14)] + _t("AB") + [C_("TO1")] + _t("CD")), (400, [C_("RDC"), P_(15)] + _t("EF") + [C_("TO3")] + _t("GH"))))
+  out.append(_scc((300, [C_("RU2"), C_("CR"), P_(15)] + _t("AB") + [C_("TO3")] + _t("CD")), (400, [C_("CR")] + _t("EF"))))
+  # the word streams of the proof tier (specs/scc_shapes.py), so that the reference decoder judges, at concrete labels, the same streams
+  # whose paragraph texts the proof tier states by hand: non-drop labels, and drop-frame labels across a minute boundary
+  from specs import scc_shapes
+  for name, spec in sorted(scc_shapes.SHAPES.items()):
+    if name in ("pop-on-doubled", "pop-on-edm"):
+      continue      # the two known time findings; the random grammars produce them anyway
+    for rate, sep, start in ((NDF, ":", 300), (DF, ";", 1790)):
+      txt = ["Scenarist_SCC V1.0", ""]
+      for i, words in enumerate(spec["lines"]):
+        h, m, s_, f = smpte.label(start + 100 * i, rate)
+        txt += [f"{h:02d}:{m:02d}:{s_:02d}{sep}{f:02d}\t{words}", ""]
+      out.append("\n".join(txt) + "\n")
   return out
 
 
